@@ -194,7 +194,7 @@ fn check_a(c: &CaseA, st: &mut Stats) -> Result<(), String> {
                 let too_long;
                 let (pdu_ref, buf_len): (&[u8], usize) = match outcome {
                     Outcome::Complete => (&pdu, 200),
-                    Outcome::Fragment => (&pdu, 7 + label.len() + if ext { 6 } else { 0 } + 3),
+                    Outcome::Fragment => (&pdu, (7 + label.len() + if ext { 6 } else { 0 } + 3).max(13)),
                     Outcome::FailSmallBuffer => (&pdu, 5),
                     Outcome::FailPduTooLong => {
                         too_long = too_long_pdu();
